@@ -550,13 +550,16 @@ func (p *Proxy) handle(ctx *Context, conn net.Conn, brw *bufio.ReadWriter) error
 		req.URL.Host = session.getTunnelHost()
 	}
 
+	// What is written on the connection from here on - by a modifier that
+	// hijacks the session, as the answer to CONNECT, as a tunnel's or a TLS
+	// session's bytes - is not part of the previous exchange's response: it must
+	// not be shaped by the context that exchange left behind. (A response that
+	// matches a shape gets its own context below.)
+	if ptsconn, ok := conn.(*trafficshape.Conn); ok {
+		ptsconn.Context = &trafficshape.Context{}
+	}
+
 	if req.Method == "CONNECT" {
-		// What is written from here on (the answer to CONNECT, a tunnel's or a
-		// TLS session's bytes) is not a response of the previous exchange: it
-		// must not be shaped by the context that exchange left behind.
-		if ptsconn, ok := conn.(*trafficshape.Conn); ok {
-			ptsconn.Context = &trafficshape.Context{}
-		}
 		return p.handleConnectRequest(ctx, req, session, brw, conn)
 	}
 
